@@ -31,7 +31,7 @@ LEVEL_TEXT = (
     "channel_metrics.fidelity_of_separability are called on Choi matrices of generated qubit and qutrit maps (unitary channels, mixtures of unitaries, Pauli channels, random CPTP maps "
     "from Stinespring isometries, differences of channels, completely positive non-trace-preserving maps, general Hermiticity-preserving maps; a few ququart / d=5 instances for the "
     "'defined for every local dimension' clause) and each value is compared with closed forms, with bounds that follow from the definition, and with the relations of the statement. "
-    "SDP values are judged with tolerance 1e-5 (picos/cvxopt) and 5e-4 (cvxpy/SCS); solver breakdowns are undecided samples."
+    "SDP values are judged with tolerance 1e-5 (picos/cvxopt) and 2e-3 (cvxpy/SCS); solver breakdowns are undecided samples."
 )
 RULE = (
     "Deterministic grid over (local dimension 2, 3) x kind of map x clause, with rotation angles / mixing weights on a fixed grid, plus random instances from VERIF_SEED; "
@@ -41,7 +41,7 @@ RULE = (
 EXPLANATION = LEVEL_TEXT
 TRUSTED = [
     "numpy.linalg (eigvalsh, svd, eigvals, qr) is correct to ~1e-12 on the matrices of dimension <= 25 used by the oracles",
-    "tolerances are part of the contract: 1e-5 absolute (relative to max(1, value)) for cvxopt-backed picos values, 5e-4 for the SCS-backed channel fidelity, 1e-9 for shortcut (non-SDP) paths",
+    "tolerances are part of the contract: 1e-5 absolute (relative to max(1, value)) for cvxopt-backed picos values, 2e-3 for the SCS-backed channel fidelity (SCS reaches ~5e-4 on these programs), 1e-9 for shortcut (non-SDP) paths",
     "closed forms used as ground truth: ||U . U* - V . V*||_diamond = 2 sqrt(1 - delta^2), root channel fidelity of two unitary channels = delta (delta = dist(0, conv spec(U*V))); "
     "for Pauli channels the diamond distance is sum |p_i - q_i| and the root channel fidelity is sum sqrt(p_i q_i) (joint covariance: the maximally entangled input is optimal); "
     "||Phi||_diamond = ||Phi*(I)||_op for completely positive Phi; ||J||_1 / d <= ||Phi||_diamond <= ||J||_1",
@@ -51,7 +51,7 @@ TRUSTED = [
 ASSUMPTIONS = TRUSTED
 
 TOL_CVXOPT = 1e-5
-TOL_SCS = 5e-4
+TOL_SCS = 2e-3
 TOL_EXACT = 1e-9
 
 
@@ -746,8 +746,8 @@ def cases(tier, seed):
     thorough = tier == "thorough"
     out = []
 
-    def add(clause, params, ic, nontrivial=True):
-        out.append(dict(clause=clause, params=params, input_class=ic, nontrivial=nontrivial))
+    def add(clause, params, ic, nontrivial=True, **kw):
+        out.append(dict(clause=clause, params=params, input_class=ic, nontrivial=nontrivial, **kw))
 
     pairs = [("unitary", "unitary"), ("unitary", "mixed-unitary"), ("mixed-unitary", "mixed-unitary"), ("pauli", "pauli"), ("cptp", "cptp"), ("cptp", "unitary"), ("cptp", "replacer"), ("amplitude-damping", "identity"), ("cptp-rank2", "mixed-unitary")]
     seeds = [seed + i for i in range(3 if thorough else 1)]
@@ -872,7 +872,7 @@ def cases(tier, seed):
         cls = "cfos/pure-product/%s/k=%d" % ("x".join(map(str, dims)), k)
         for fld in ("complex", "real") if (k == 1 or thorough) else ("complex",):
             for s in seeds:
-                add("cfos.product_is_1", dict(dims=dims, k=k, field=fld, seed=s), cls)
+                add("cfos.product_is_1", dict(dims=dims, k=k, field=fld, seed=s), cls, **({"limit": 110} if thorough else {}))
         if k == 1:
             add("cfos.product_is_1", dict(dims=dims, k=k, basis=True, index=1, seed=seed), "cfos/pure-product-basis/%s/k=%d" % ("x".join(map(str, dims)), k))
 
